@@ -11,6 +11,9 @@ CC = 'Circuit.circuit'
 
 
 def run(rep, prog, tier):
+    from .hidden import no_hidden_state
+    rep.rule('R09.state', 'no hidden state in the anchored modules: no function writes a module-level object, no caching decorator / cached property')
+    no_hidden_state(rep, 'R09.state', prog, ['Circuit/circuit.py', 'Circuit/solution.py', 'Circuit/transformers.py', 'SignalProcessing/periodic_functions.py'])
     rep.rule('R09.freqs', 'frequency_components yields per component [w] or [w*n for n in 0..floor(w_max/w)] (k=0 included), merges all lists, removes duplicates and sorts; components without frequency contribute nothing')
     rep.rule('R09.tolerance', 'every comparison of two angular frequencies in Circuit/ uses the frequency resolution; duplicates must not be removed by exact float hashing (contradiction rule)')
     rep.rule('R09.time', 'time functions are sum_k |X_k| cos(w_k t + arg X_k) over zip(values, self.w) where values come from the solutions built from transform(circuit, w=self.w) -- same order on both sides')
@@ -71,6 +74,8 @@ def tolerance(rep, prog):
     for kind, ent in tr.items():
         if ent is None: continue
         ev, term = T.eval_translator(prog, ent[0], ent[1])
+        from ..terms import hoist
+        term = hoist(term)
         if isinstance(term, Cond) and 'wres' in repr(tkey(term.g)): gate_sites += 1
     rep.count('tolerance_gate_sites', gate_sites)
     f = prog.func(CC, 'frequency_components')
@@ -110,7 +115,22 @@ def time_domain(rep, prog):
         t, st = method_term(prog, ev, m, cls, f'get_{q}', [A('id')])
         val = ev.apply(t, [A('t')], {}, m, 1) if isinstance(t, Closure) else None
         okf = None
-        if isinstance(val, Opq) and val.k[0] == 'Σ' and isinstance(val.k[1], Comp) and len(val.k[1].gens) == 1:
+        why = ''
+        # any filter on the way from the spectral lines to the sum drops lines (a tolerance test such as isclose(X, 0) loses small signals)
+        def filters_in(c_):
+            out = []
+            if isinstance(c_, Comp):
+                for it_, fs_ in c_.gens:
+                    out += list(fs_); out += filters_in(it_)
+                    if isinstance(it_, Opq) and it_.k and it_.k[0] == 'zip':
+                        for z_ in it_.k[1:]: out += filters_in(z_)
+            return out
+        flt = filters_in(val.k[1]) if isinstance(val, Opq) and val.k and val.k[0] == 'Σ' else []
+        if flt and not any(has_opaque(x) for x in flt):
+            exact = all(isinstance(x, Opq) and x.k[0] == 'cmp' and x.k[1] in ('NotEq', 'Gt') and 'isclose' not in repr(x) for x in flt)
+            okf = None if exact else False
+            why = f' -- spectral lines are filtered by {flt[0]!r:.120}: lines that fail the test are missing from the sum'
+        elif isinstance(val, Opq) and val.k[0] == 'Σ' and isinstance(val.k[1], Comp) and len(val.k[1].gens) == 1:
             cp = val.k[1]; it = cp.gens[0][0]
             pair_ok = False
             if isinstance(it, Opq) and it.k[0] == 'zip' and len(it.k) == 3:
@@ -121,7 +141,7 @@ def time_domain(rep, prog):
                 fs = spec(ev, "abs(X)*cos(W*t + angle(X))", {'X': X, 'W': W, 't': A('t')}, m)
                 okf = bool(pair_ok and term_equal(cp.elt, fs) and not cp.gens[0][1])
                 if not okf and has_opaque(cp.elt): okf = None
-        rep.ob('R09.time', f'get_{q}', okf, f'{q}(t) = {val!r:.300}', st, lhs=val)
+        rep.ob('R09.time', f'get_{q}', okf, f'{q}(t) = {val!r:.300}{why}', st, lhs=val)
 
 
 def peak_and_types(rep, prog):
